@@ -251,6 +251,8 @@ func (w *world) authorised(who, mode string) bool {
 	switch mode {
 	case "keys":
 		return who == "K1" || who == "K2"
+	case "cert-no-roots":
+		return false // a layout without root CAs authorises no certificate holder
 	case "cert":
 		return f.Cert == "good" && !w.dsse
 	case "mixed":
@@ -271,8 +273,10 @@ func (w *world) layout(mode string, threshold int) (intoto.Metadata, map[string]
 	}
 	s := gen.Step("s", threshold, pub, allow, allow)
 	if mode != "keys" {
+		// the constraint the good certificates satisfy, followed by one that nobody satisfies
 		s.CertificateConstraints = []intoto.CertificateConstraint{{CommonName: "*", DNSNames: []string{"*"}, Emails: []string{"*"},
-			Organizations: []string{"good"}, Roots: []string{"*"}, URIs: []string{"*"}}}
+			Organizations: []string{"good"}, Roots: []string{"*"}, URIs: []string{"*"}},
+			{CommonName: "nobody", DNSNames: []string{"*"}, Emails: []string{"*"}, Organizations: []string{"nobody"}, Roots: []string{"*"}, URIs: []string{"*"}}}
 	}
 	t2 := gen.Step("t2", 1, []string{KT.ID}, allow, allow)
 	if mode != "keys" {
@@ -282,6 +286,9 @@ func (w *world) layout(mode string, threshold int) (intoto.Metadata, map[string]
 	}
 	l := gen.Layout(gen.FarFuture, []intoto.Step{s, t2}, nil, map[string]intoto.Key{K1.ID: K1.Pub, K2.ID: K2.Pub, K3.ID: K3.Pub, KT.ID: KT.Pub})
 	l.RootCas = map[string]intoto.Key{w.root.AsKey.KeyID: w.root.AsKey}
+	if mode == "cert-no-roots" {
+		l.RootCas = map[string]intoto.Key{}
+	}
 	l.IntermediateCas = map[string]intoto.Key{}
 	for _, ic := range w.inter {
 		l.IntermediateCas[ic.AsKey.KeyID] = ic.AsKey
@@ -486,6 +493,14 @@ func run(c *mcx.Ctx) {
 	var n int64
 	for _, dsse := range []bool{false, true} {
 		w := buildWorld(c.Work, dsse)
+		if !dsse {
+			// the machine's own trust store holds the catalogue's root: a verifier that falls back to it when the
+			// layout names no root (or the wrong one) accepts what only a layout root may authorise
+			rootFile := filepath.Join(c.Work, "system-roots.pem")
+			os.WriteFile(rootFile, w.root.PEM, 0o644)
+			os.Setenv("SSL_CERT_FILE", rootFile)
+			os.Setenv("SSL_CERT_DIR", filepath.Join(c.Work, "no-such-cert-dir"))
+		}
 		subs := subsets(len(w.items), maxSize)
 		popDir := filepath.Join(c.Work, "pop")
 		for _, sub := range subs {
@@ -506,8 +521,11 @@ func run(c *mcx.Ctx) {
 				continue
 			}
 			c.Step(1, 0)
-			for _, mode := range []string{"keys", "cert", "mixed"} {
+			for _, mode := range []string{"keys", "cert", "mixed", "cert-no-roots"} {
 				for t := 1; t <= 3; t++ {
+					if mode == "cert-no-roots" && (len(ids) > 2 || t > 1) {
+						continue
+					}
 					cs := Case{Mode: mode, Threshold: t, DSSE: dsse, Items: ids}
 					bound := 0
 					if c.Thorough() && len(ids) <= 2 {
@@ -646,7 +664,7 @@ func init() {
 	mcx.Register(&mcx.Driver{
 		ID: "C02", Run: run, Replay: replay,
 		Rule: "every population (subset of size <= 3 quick / <= 4 thorough) of a 27-element catalogue of link files for step s (honest by authorised / unlisted / foreign-step keys, tampered, unsigned, misnamed, doubly signed (the functionary's signature first or second), with a second worthless entry under the functionary's own key id (after / before the genuine one), forged claimed key id, certificate-signed with good/expired/foreign-root/constraint-violating/attribute-lacking chains, directly below a root or below an intermediate listed in the layout (one under the layout root, one under a foreign root), truncated, a layout, a directory) " +
-			"x threshold 1..3 x authorisation {keys, certificate constraint, mixed} x {legacy, DSSE}; for each, InTotoVerify is executed under EVERY iteration order of the per-link counting loop (full permutations; thorough adds one order deviation at every other map range for populations <= 2). " +
+			"x threshold 1..3 x authorisation {keys, certificate constraint (a satisfiable constraint followed by one nobody satisfies), mixed; and certificate constraint with a layout that names no root CA, on populations <= 2 at threshold 1, with the catalogue's root in the process's system trust store} x {legacy, DSSE}; for each, InTotoVerify is executed under EVERY iteration order of the per-link counting loop (full permutations; thorough adds one order deviation at every other map range for populations <= 2). " +
 			"A case = one (population, threshold, mode, wrapper), distinct by construction; non-trivial = non-empty population with at least one authorised valid signer. states = populations materialised, transitions = choice points passed.",
 		Assumptions: []string{
 			"validity of each catalogue signature is known by construction (who signed which bytes)",
